@@ -2,6 +2,9 @@
 Engine: nprobe canon (real CanonicalizePath, ASan+UBSan, exact-size heap buffers).
 Oracle: ten-line reference normaliser compiled into the probe + idempotence, never longer,
 leading '/' kept, slash_bits==0, std::string overload agrees."""
+
+MANIFEST = {'engine': 'nprobe', 'category': 'exploration', 'technique': 'runtime monitoring: real CanonicalizePath under ASan/UBSan; bounded-exhaustive + random inputs; reference-normaliser oracle', 'text': 'Every string over {a,b,.,/} up to length 10 (quick) / 13 (thorough) and 0.2M / 5M random long paths are pushed through the real function in exact-size heap buffers; each result is compared with a ten-line reference normaliser and checked for idempotence, non-growth, kept root. Exhaustive where the structure lives, sampled beyond; a sanitizer report is a violation.', 'note': 'Trusted: the reference normaliser (harness/probe_canon.cc RefCanon), ASan red zones. Empty string excluded (callers reject it).', 'ref': 'DESIGN.md §5 C14'}
+
 from .. import build, util, core
 import json
 
